@@ -603,6 +603,7 @@ protected:
   inline T_PointerType impl_register_callback(void* key, void* callback)
   {
     SIM_YIELD("impl_register");
+    RLBOX_ACQUIRE_UNIQUE_GUARD(lock, table_lock); // like the bundled backends' callback_mutex
     n_regs++;
     for (size_t i = (size_t)first_slot; i < table.size(); i++) {
       if (table[i].kind == 0) {
@@ -629,6 +630,7 @@ protected:
   inline void impl_unregister_callback(void* key)
   {
     SIM_YIELD("impl_unregister");
+    RLBOX_ACQUIRE_UNIQUE_GUARD(lock, table_lock);
     n_unregs++;
     for (size_t i = (size_t)first_slot; i < table.size(); i++) {
       if (table[i].kind == 2 && table[i].key == key) {
@@ -689,6 +691,7 @@ protected:
   }
 
 public:
+  RLBOX_SHARED_LOCK(table_lock);
   uintptr_t rem_base = 0; // what the object remembers about its memory (not reset by destroy / failed create)
   size_t rem_size = 0;
   static inline thread_local bool in_finder = false;
